@@ -1270,7 +1270,7 @@ def try_into_target_len(F, b, bb):
     t = b.blocks[bb]["term"]
     # the unwrap's own generic arg T is the target array type
     c = t["callee"]
-    for a in (c.get("resolved") or c).get("args", []):
+    for a in list((c.get("resolved") or c).get("args", [])) + list(c.get("args", [])):
         if a.get("k") == "ty":
             ty = F.ty(a["ty"])
             while ty and ty["k"] == "ref":
